@@ -15,12 +15,35 @@ const (
 	YAMLBlock     YAMLStyle = iota // block mappings/sequences, double-quoted strings
 	YAMLFlow                       // flow style == JSON text
 	YAMLBlockBare                  // block style, plain (unquoted) keys and safe scalars
+	YAMLFlowBare                   // flow style with plain keys and scalars: the document starts with "{" and is NOT JSON
 )
 
 // ToYAML renders a jsonx value as YAML.
 func ToYAML(v any, st YAMLStyle) []byte {
 	if st == YAMLFlow {
 		return jsonx.MarshalIndent(v)
+	}
+	if st == YAMLFlowBare {
+		var b bytes.Buffer
+		if o, ok := v.(jsonx.Obj); ok && len(o) > 0 {
+			// one top-level member per line
+			b.WriteString("{\n")
+			for i, kv := range o {
+				b.WriteString("  ")
+				b.WriteString(flowKey(kv.K))
+				b.WriteString(": ")
+				writeFlow(&b, kv.V)
+				if i < len(o)-1 {
+					b.WriteByte(',')
+				}
+				b.WriteByte('\n')
+			}
+			b.WriteString("}\n")
+		} else {
+			writeFlow(&b, v)
+			b.WriteByte('\n')
+		}
+		return b.Bytes()
 	}
 	var b bytes.Buffer
 	writeYAML(&b, v, 0, st, false)
@@ -130,4 +153,39 @@ var reCanonDec = regexp.MustCompile(`^-?(0|[1-9][0-9]{0,5})\.[0-9]{0,3}[1-9]$`)
 // boolean, so that writing it unquoted yields a non-string mapping key with the same text.
 func canonicalNonString(s string) bool {
 	return s == "true" || s == "false" || reCanonInt.MatchString(s) || reCanonDec.MatchString(s)
+}
+
+func flowKey(k string) string {
+	if bareSafe(k) || canonicalNonString(k) {
+		return k
+	}
+	return quoted(k)
+}
+
+func writeFlow(b *bytes.Buffer, v any) {
+	switch t := v.(type) {
+	case jsonx.Obj:
+		b.WriteByte('{')
+		for i, kv := range t {
+			if i > 0 {
+				b.WriteString(", ")
+			}
+			b.WriteString(flowKey(kv.K))
+			b.WriteString(": ")
+			writeFlow(b, kv.V)
+		}
+		b.WriteByte('}')
+	case []any:
+		b.WriteByte('[')
+		for i, e := range t {
+			if i > 0 {
+				b.WriteString(", ")
+			}
+			writeFlow(b, e)
+		}
+		b.WriteByte(']')
+	default:
+		s, _ := scalarYAML(v, YAMLBlockBare)
+		b.WriteString(s)
+	}
 }
